@@ -113,6 +113,35 @@ func execCronSysCase(c Case) {
 	}
 	c["phase1_ms"] = time.Since(start).Milliseconds()
 	time.Sleep(1100*time.Millisecond - time.Since(start))
+	// what must have run: the pairs whose last successful operation scheduled a rule
+	due := map[string]bool{}
+	for _, oi := range list(c["ops"]) {
+		o := obj(oi)
+		if boolean(o["ok"]) {
+			due[str(o["loc"])+"/"+str(o["id"])] = str(o["op"]) == "addsched"
+		}
+	}
+	var obs []interface{}
+	// (on a loaded machine a due job may be late: "runs when due" is judged one-sidedly, the harness
+	// waits up to 6 s more for a job that must run; "never after removal" had its 700 ms and more)
+	for attempt := 0; ; attempt++ {
+		obs = observeCronSys(c, s, newctx)
+		late := false
+		for _, oi := range obs {
+			o := obj(oi)
+			if due[str(o["loc"])+"/"+str(o["id"])] && num(o["ran"]) == 0 {
+				late = true
+			}
+		}
+		if !late || attempt >= 30 {
+			break
+		}
+		time.Sleep(200 * time.Millisecond)
+	}
+	c["obs"] = obs
+}
+
+func observeCronSys(c Case, s *sys.System, newctx func() *core.Context) []interface{} {
 	var obs []interface{}
 	for _, li := range list(c["locs"]) {
 		loc := str(li)
@@ -127,5 +156,5 @@ func execCronSysCase(c Case) {
 			obs = append(obs, map[string]interface{}{"loc": loc, "id": id, "ran": ran, "present": gerr == nil})
 		}
 	}
-	c["obs"] = obs
+	return obs
 }
